@@ -146,7 +146,7 @@ def level_families():
     inequalities) at q = 2 and p = 1, an equality at q = 2, signomial problems at q = 2"""
     out = []
     P = lambda rows, c: rm.sig_leaf([[F(v) for v in r] for r in rows], [F(v) for v in c], poly=True)   # noqa: E731
-    S = lambda rows, c: rm.sig_leaf([[F(v) for v in r] for r in rows], [F(v) for v in c])              # noqa: E731
+    S = lambda rows, c: rm.sig_leaf([[F(v) for v in r] for r in rows], [F(v) for v in c])              # noqa: E731  (F accepts 'p/q' strings)
     f2 = P([[2, 2], [1, 1], [4, 0], [2, 0], [0, 0]], [1, -2, 1, -2, 2])          # (x0 x1 - 1)^2 + (x0^2 - 1)^2
     f1 = P([[4], [1], [0]], [1, -3, 0])
     for lv in ((0, 2, 0), (1, 1, 0), (0, 1, 0)):
@@ -160,6 +160,11 @@ def level_families():
     gs = [S([[0, 0], [1, 0]], [3, -1]), S([[1, 0], [0, 0]], [1, '-1/4']), S([[0, 0], [0, 1]], [3, -1]), S([[0, 1], [0, 0]], [1, '-1/4'])]
     for lv in ((0, 2, 0), (1, 1, 0)):
         out.append({'kind': 'sig', 'f': fs, 'gts': gs, 'eqs': [], 'X': 'none', 'via_X_only': False, 'p': lv[0], 'q': lv[1], 'ell': lv[2]})
+    # two exponents 5e-7 apart (distinct on the 7-decimal grid): the bound and the recovered points must be those of the function with BOTH terms
+    out.append({'kind': 'sig', 'f': S([[2], [1], ['10000005/10000000']], [1, -1, -1]), 'gts': [], 'eqs': [], 'X': 'none', 'via_X_only': False,
+                'p': 0, 'q': 1, 'ell': 0})
+    out.append({'kind': 'sig', 'f': S([[2], [1], ['10000005/10000000'], [0]], [1, -1, -1, 3]), 'gts': [S([[0], [1]], [5, -1])], 'eqs': [], 'X': 'none',
+                'via_X_only': False, 'p': 0, 'q': 1, 'ell': 0})
     # EQUALITY-ONLY problems (the inequality list is empty): every returned point must still satisfy the equalities
     circ = S([[2, 0], [0, 2], [0, 0]], [1, 1, -1])
     out.append({'kind': 'sig', 'f': S([[1, 0], [0, 1]], [-1, -1]), 'gts': [], 'eqs': [circ], 'X': 'none', 'via_X_only': False, 'p': 0, 'q': 1, 'ell': 0})
